@@ -80,6 +80,10 @@ def scope_programs(draw, tier, fail=2, volatile=2, until=3, late_spawn=2, priv=1
                 out.append({'op': 'finally', 'body': [sl(), sl()],
                             'final': [{'op': 'spawn_into', 'ref': draw(st.sampled_from(scope_chain)),
                                        'child': {'name': cn, 'steps': [sl(), {'op': 'mark', 'v': 'late'}, sl()]}}]})
+            elif r < 18 and finally_raise and toplevel and w(finally_raise * 3):
+                # clean-up code that fails - also when the activity is closed by its scope
+                out.append({'op': 'finally', 'body': [sl(), sl()],
+                            'final': [{'op': 'raise', 'eid': nm.eid(), 'cls': draw(st.sampled_from(PRIV)) if w(priv) else draw(st.sampled_from(EXC))}]})
             elif r < 18 and sync and w(sync * 3):
                 # the activity holds a lock / waits for a queue item when its scope is torn down
                 k2 = draw(st.integers(0, 2))
@@ -89,10 +93,6 @@ def scope_programs(draw, tier, fail=2, volatile=2, until=3, late_spawn=2, priv=1
                     out.append({'op': 'qget', 's': 0})
                 else:
                     out.append({'op': 'qput', 's': 0, 'v': draw(st.integers(0, 9))})
-            elif r < 18 and finally_raise and toplevel and w(finally_raise * 3):
-                # clean-up code that fails - also when the activity is closed by its scope
-                out.append({'op': 'finally', 'body': [sl(), sl()],
-                            'final': [{'op': 'raise', 'eid': nm.eid(), 'cls': draw(st.sampled_from(PRIV)) if w(priv) else draw(st.sampled_from(EXC))}]})
             elif r < 18 and nflags:
                 out.append({'op': 'set_flag', 'i': draw(st.integers(0, nflags - 1)), 'v': True})
             else:
